@@ -52,7 +52,11 @@ sensitivity)
 			if [ -n "${KEEP_REPLAYS:-}" ]; then
 				mkdir -p "$KEEP_REPLAYS"
 				rp=$(echo "$out" | sed -n 's/^VIOLATION property=[A-Z0-9]* replay=//p' | head -1)
-				[ -f "$rp" ] && cp "$rp" "$KEEP_REPLAYS/$prop-$(basename "$f" .diff | sed -E 's/\.C[0-9]+$//').json"
+				case "$f" in
+					*/seeded/*) nm="seeded-$(basename "$(dirname "$f")" | sed -E 's/^C[0-9]+-//')";;
+					*) nm="$(basename "$f" .diff | sed -E 's/\.C[0-9]+$//')";;
+				esac
+				[ -f "$rp" ] && cp "$rp" "$KEEP_REPLAYS/$prop-$nm.json"
 			fi
 			echo "caught  $prop $(basename "$(dirname "$f")")/$(basename "$f"): $(echo "$out" | grep -E '^  (oracle|op) ' | tr -s ' ' | tr '\n' ';')"
 		else
